@@ -581,6 +581,14 @@ type Upd struct {
 	NewID    string         // != "": set _id to this value
 	Delete   bool           // UpdateFunc only: return nil
 	BadExp   bool           // set _expiresAt to a non-time
+	SpellingOfOwnID bool    // set _id to the other letter case of the document's own id
+}
+
+func otherCase(id string) string {
+	if up := strings.ToUpper(id); up != id {
+		return up
+	}
+	return strings.ToLower(id)
 }
 
 func (u *Upd) String() string {
@@ -614,6 +622,9 @@ func (u *Upd) applyModel(d map[string]any) map[string]any {
 	}
 	if u.NewID != "" {
 		n["_id"] = u.NewID
+		if id, ok := d["_id"].(string); ok && u.SpellingOfOwnID {
+			n["_id"] = otherCase(id)
+		}
 	}
 	if u.BadExp {
 		n["_expiresAt"] = "soon"
@@ -641,7 +652,11 @@ func (u *Upd) callback(calls *[]updCall) func(*document.Document) *document.Docu
 			t.Set(k, model.DeepCopy(u.Set[k]))
 		}
 		if u.NewID != "" {
-			t.Set("_id", u.NewID)
+			if u.SpellingOfOwnID {
+				t.Set("_id", otherCase(doc.ObjectId()))
+			} else {
+				t.Set("_id", u.NewID)
+			}
 		}
 		if u.BadExp {
 			t.Set("_expiresAt", "soon")
@@ -848,6 +863,7 @@ func (s *S) Bulk(kind int, q *model.Query, u *Upd) {
 	var f func() error
 	switch kind {
 	case BulkUpdateMap:
+		u.SpellingOfOwnID = false // a map carries one constant _id
 		n = fmt.Sprintf("Update(%s, %s)", q, u)
 		f = func() error { return s.h.DB.Update(q.ToClover(), u.asMap()) }
 	case BulkUpdateFunc:
